@@ -167,7 +167,7 @@ Lemma run_spec_on_model : forall l0 l c, split_trace l0 = (l, None) -> parse_cas
   run_spec l0 (run_model l0) = spec_on c.
 Proof.
   intros l0 l c S H G. rewrite (run_model_obs l0 l c S H). unfold run_spec. rewrite S. cbn [fst]. rewrite H.
-  destruct c as [s | s | k raw s | r d vs keys ops | r d ops | r d ops | kind r d threads]; cbn [model_obs spec_on].
+  destruct c as [s | s | k raw s | r d vs keys ops | r d ops | r d ops | kind r d threads |]; cbn [model_obs spec_on].
   - now rewrite parse_flag2_print.
   - change (tbool (validate_unit_nr s)) with (print_obool (Some (validate_unit_nr s))). now rewrite parse_flag2_print.
   - cbn in G. destruct (pred_model k raw s) as [b|]; [now rewrite parse_flag_print | contradiction].
@@ -175,6 +175,7 @@ Proof.
   - now rewrite parse_print_tr.
   - now rewrite parse_print_lg.
   - now rewrite parse_print_prace.
+  - reflexivity.
 Qed.
 
 Lemma model_meets_spec_wire_lemma : forall l0 l c, split_trace l0 = (l, None) -> parse_case l = Some c -> case_good c ->
